@@ -78,6 +78,34 @@ def scene_case(spec):
             break
     r0 = S.build(cfg0)
     P.impl_pipeline(r0, src, c, dt, dur, K, recs, direct=True)
+    # walls left at their default material (no set_wall_brdf call at all): the attenuation the user set must
+    # still act on the source legs, and must still be the object's attenuation after init_source_energy
+    ra = sp.DirectionalRadiosityFast.from_polygon(walls, cfg["patch_size"])
+    ra.set_air_attenuation(pf.FrequencyData(cfg["att"], cfg["freqs"]))
+    ra.bake_geometry()
+    ra.init_source_energy(pf.Coordinates(*src))
+    rb = sp.DirectionalRadiosityFast.from_polygon(walls, cfg["patch_size"])
+    rb.set_air_attenuation(pf.FrequencyData(np.zeros(nb), cfg["freqs"]))
+    rb.bake_geometry()
+    rb.init_source_energy(pf.Coordinates(*src))
+    ea, eb = np.asarray(ra._energy_init_source), np.asarray(rb._energy_init_source)
+    dsrc = np.linalg.norm(ra.patches_center - src, axis=1)
+    if not np.array_equal(np.asarray(ra._air_attenuation, dtype=float).reshape(-1), np.asarray(cfg["att"], dtype=float)):
+        out["prop_failures"].append(dict(test="default_material_attenuation", case=tag,
+                                         what="after init_source_energy on an object without set_wall_brdf the air "
+                                              "attenuation is %r, the user had set %r" % (
+                                                  np.asarray(ra._air_attenuation).tolist(), cfg["att"].tolist())))
+    elif ea.shape == eb.shape:
+        for b in range(nb):
+            exp_ = eb[:, 0, b] * np.exp(-cfg["att"][b] * dsrc)
+            bad = np.abs(ea[:, 0, b] - exp_) > 1e-9 * np.abs(exp_) + 1e-300
+            if bad.any():
+                j = int(np.argmax(bad))
+                out["prop_failures"].append(dict(test="default_material_attenuation", case=tag, patch=j, band=b,
+                                                 what="walls with the default material: source->patch leg of patch %d, band %d "
+                                                      "is %r, unattenuated %r x exp(-m d) = %r" % (
+                                                          j, b, float(ea[j, 0, b]), float(eb[j, 0, b]), float(exp_[j]))))
+                break
     centers = radi.patches_center
     V = radi.visibility_matrix
     n = radi.n_patches
